@@ -1,15 +1,328 @@
 package main
 
-// Byte views of typed slices (the unsafe idiom of the *_unsafe*.go codecs).
+// Byte views of typed slices: the unsafe idiom of the *_unsafe*.go codecs
+//
+//     s := *(*slice)(unsafe.Pointer(&v)); s.Len *= size; s.Cap *= size
+//     b := *(*[]byte)(unsafe.Pointer(&s))
+//
+// is recognised as ONE primitive: b is a byte view of v's backing array
+// (little-endian memory layout, guaranteed by the files' build constraint).
+// A view never owns bytes: every use materialises the byte image B of the
+// current typed content (B[e*W+j] = byte j of element e), and every write
+// through the view defines the new typed content from the new image.
 
-func (fr *FnRun) viewByte(st *State, v *SliceV, i *Term) *Term {
-	panic(abortf("byte view read unsupported"))
+import (
+	"fmt"
+	"go/types"
+)
+
+// sliceHeaderOf converts a loaded slice into the {Data, Len, Cap} header struct.
+func (fr *FnRun) sliceHeaderOf(s *SliceV, hdr types.Type) *StructV {
+	if s.ViewW > 0 {
+		panic(abortf("slice header of a byte view"))
+	}
+	return &StructV{T: hdr, F: []Val{
+		&unsafeV{Arr: s.Arr, Off: s.Off, Elem: s.Elem, OrigLen: s.Len, OrigCap: s.Cap, NilT: s.Nil},
+		s.Len, s.Cap,
+	}}
 }
 
+// viewOfHeader converts a header struct read back as []byte into a byte view.
+func (fr *FnRun) viewOfHeader(st *State, h *StructV, to types.Type, site string) Val {
+	u, ok := h.F[0].(*unsafeV)
+	if !ok || u.Elem == nil {
+		panic(abortf("reinterpreting a slice header whose Data is not a known array"))
+	}
+	sl, ok := under(to).(*types.Slice)
+	if !ok {
+		panic(abortf("slice header reinterpreted as %s", to))
+	}
+	if sz := fr.ex.sizeOf(sl.Elem()); sz != 1 {
+		panic(abortf("slice header reinterpreted as slice of %d-byte elements", sz))
+	}
+	if isTypeParam(u.Elem) {
+		panic(abortf("byte view of a slice of type parameter %s", u.Elem))
+	}
+	w := fr.ex.sizeOf(u.Elem)
+	if w <= 0 || w > 512 {
+		panic(abortf("byte view of %s: unsupported element size %d", u.Elem, w))
+	}
+	l, c := h.F[1].(*Term), h.F[2].(*Term)
+	// memory safety of the reinterpretation
+	goal := And(Le(Int(0), l), Le(l, c), Le(c, Mul(Int(w), u.OrigCap)))
+	fr.oblige(st, "view", site, goal, nil, "reinterpreted slice stays inside the original array (len <= cap <= size*cap0)")
+	st.assume(goal)
+	return &SliceV{Nil: u.NilT, Arr: u.Arr, Off: Mul(u.Off, Int(w)), Len: l, Cap: c, Elem: sl.Elem(), ViewW: int(w), ViewElem: u.Elem}
+}
+
+// layout: scalar leaves of an element type with their byte offsets.
+type leaf struct {
+	off  int64
+	size int64
+	t    types.Type
+	path []int // field/array indices
+}
+
+func (ex *Exec) leaves(t types.Type, base int64, path []int) []leaf {
+	switch u := under(t).(type) {
+	case *types.Basic:
+		return []leaf{{off: base, size: ex.sizeOf(t), t: t, path: append([]int(nil), path...)}}
+	case *types.Struct:
+		var out []leaf
+		sizes := types.SizesFor("gc", "amd64")
+		var fields []*types.Var
+		for i := 0; i < u.NumFields(); i++ {
+			fields = append(fields, u.Field(i))
+		}
+		offs := sizes.Offsetsof(fields)
+		for i, f := range fields {
+			out = append(out, ex.leaves(f.Type(), base+offs[i], append(path, i))...)
+		}
+		return out
+	case *types.Array:
+		var out []leaf
+		es := ex.sizeOf(u.Elem())
+		for i := int64(0); i < u.Len(); i++ {
+			out = append(out, ex.leaves(u.Elem(), base+i*es, append(path, int(i)))...)
+		}
+		return out
+	}
+	panic(abortf("byte view over element type %s", t))
+}
+
+func valAt(ex *Exec, st *State, v Val, path []int) Val {
+	for _, i := range path {
+		switch x := ex.force(st, v).(type) {
+		case *StructV:
+			v = x.F[i]
+		case *ArrayV:
+			v = ex.readElem(st, x.Data, x.Elem, Int(int64(i)))
+		default:
+			panic(abortf("valAt: %T", x))
+		}
+	}
+	return ex.force(st, v)
+}
+
+// scalarByte: byte j of a scalar leaf value.
+func (fr *FnRun) scalarByte(v *Term, t types.Type, size int64, j int64) *Term {
+	ex := fr.ex
+	if isBool(t) {
+		return Ite(v, Int(1), Int(0))
+	}
+	u := v
+	if _, uns, ok := intBits(t); ok && !uns {
+		u = wrapTo(v, uint(size*8), true)
+	}
+	if size == 1 {
+		return u
+	}
+	bn, _ := ex.byteFns(int(size * 8))
+	return App(bn, SInt, u, Int(j))
+}
+
+func (fr *FnRun) scalarFromBytes(t types.Type, size int64, bs []*Term) *Term {
+	ex := fr.ex
+	if isBool(t) {
+		return Not(Eq(bs[0], Int(0)))
+	}
+	var u *Term
+	if size == 1 {
+		u = bs[0]
+	} else {
+		_, un := ex.byteFns(int(size * 8))
+		u = App(un, SInt, bs...)
+	}
+	if _, uns, ok := intBits(t); ok && !uns {
+		return wrapTo(u, uint(size*8), false)
+	}
+	return u
+}
+
+// elemBytes returns the W bytes of element value v.
+func (fr *FnRun) elemBytes(st *State, v Val, t types.Type) []*Term {
+	ex := fr.ex
+	w := ex.sizeOf(t)
+	out := make([]*Term, w)
+	for _, lf := range ex.leaves(t, 0, nil) {
+		lv, ok := valAt(ex, st, v, lf.path).(*Term)
+		if !ok {
+			panic(abortf("byte view: non-scalar leaf"))
+		}
+		for j := int64(0); j < lf.size; j++ {
+			out[lf.off+j] = fr.scalarByte(lv, lf.t, lf.size, j)
+		}
+	}
+	for i, b := range out {
+		if b == nil {
+			out[i] = Int(0) // padding
+		}
+	}
+	return out
+}
+
+// elemFromBytes builds an element value of type t from its W bytes.
+func (fr *FnRun) elemFromBytes(st *State, t types.Type, bs []*Term) Val {
+	ex := fr.ex
+	var build func(t types.Type, base int64) Val
+	build = func(t types.Type, base int64) Val {
+		switch u := under(t).(type) {
+		case *types.Basic:
+			sz := ex.sizeOf(t)
+			return fr.scalarFromBytes(t, sz, bs[base:base+sz])
+		case *types.Struct:
+			sizes := types.SizesFor("gc", "amd64")
+			var fields []*types.Var
+			for i := 0; i < u.NumFields(); i++ {
+				fields = append(fields, u.Field(i))
+			}
+			offs := sizes.Offsetsof(fields)
+			sv := &StructV{T: t, F: make([]Val, len(fields))}
+			for i, f := range fields {
+				sv.F[i] = build(f.Type(), base+offs[i])
+			}
+			return sv
+		case *types.Array:
+			es := ex.sizeOf(u.Elem())
+			s, ok := scalarSort(u.Elem())
+			if !ok {
+				panic(abortf("byte view over nested array of %s", u.Elem()))
+			}
+			ex.ensureZeros(s)
+			arr := App("zeros_"+sortTag(s), ArrSort(SInt, s))
+			for i := int64(0); i < u.Len(); i++ {
+				arr = Store(arr, Int(i), build(u.Elem(), base+i*es).(*Term))
+			}
+			return &ArrayV{Elem: u.Elem(), N: u.Len(), Data: arr}
+		}
+		panic(abortf("byte view over element type %s", t))
+	}
+	return build(t, 0)
+}
+
+func arrDataKey(d ArrData) string {
+	switch a := d.(type) {
+	case *Term:
+		return a.String()
+	case *StructArr:
+		s := "{"
+		for _, f := range a.F {
+			s += arrDataKey(f) + ";"
+		}
+		return s + "}"
+	case *NestedArr:
+		return a.Data.String()
+	}
+	return fmt.Sprintf("%p", d)
+}
+
+// viewImage returns the byte image B of the array a view looks at, for the
+// array's CURRENT content, adding the linking facts on first use.
+func (fr *FnRun) viewImage(st *State, s *SliceV) *Term {
+	ex := fr.ex
+	data := fr.sliceData(st, s)
+	key := fmt.Sprintf("%d|%s", s.Arr.ID, hashScript(arrDataKey(data)))
+	if st.viewImg == nil {
+		st.viewImg = map[string]*Term{}
+	}
+	if b, ok := st.viewImg[key]; ok {
+		return b
+	}
+	b := Var(ex.fresh("img_"+s.Arr.Name), SArrII)
+	st.viewImg[key] = b
+	w := int64(s.ViewW)
+	e := Var(ex.fresh("e!v"), SInt)
+	el := ex.readElem(st, data, s.ViewElem, e)
+	bs := fr.elemBytes(st, el, s.ViewElem)
+	var cs []*Term
+	for j := int64(0); j < w; j++ {
+		cs = append(cs, Eq(Select(b, Add(Mul(e, Int(w)), Int(j))), bs[j]))
+	}
+	st.assume(Forall([]*Term{e}, And(cs...), Select(b, Mul(e, Int(w)))))
+	// typed content as a function of the image (inverse direction)
+	var sel []*Term
+	for j := int64(0); j < w; j++ {
+		sel = append(sel, Select(b, Add(Mul(e, Int(w)), Int(j))))
+	}
+	k := Var(ex.fresh("k!v"), SInt)
+	st.assume(Forall([]*Term{k}, And(Le(Int(0), Select(b, k)), Lt(Select(b, k), Int(256))), Select(b, k)))
+	return b
+}
+
+func (fr *FnRun) viewByte(st *State, v *SliceV, i *Term) *Term {
+	return Select(fr.viewImage(st, v), Add(v.Off, i))
+}
+
+// viewCopyFact: dstArr[dstOff+k] == view[k] for 0 <= k < n.
 func (fr *FnRun) viewCopyFact(st *State, dstArr *Term, dstOff *Term, src *SliceV, n *Term) *Term {
-	panic(abortf("copy from byte view unsupported"))
+	b := fr.viewImage(st, src)
+	k := Var(fr.ex.fresh("k!vc"), SInt)
+	return Forall([]*Term{k}, Implies(And(Le(Int(0), k), Lt(k, n)), Eq(Select(dstArr, Add(dstOff, k)), Select(b, Add(src.Off, k)))), Select(dstArr, Add(dstOff, k)))
+}
+
+// havocView gives the viewed window new bytes: the typed elements whose bytes
+// lie completely inside [Off, Off+Len) are redefined from a fresh image; all
+// other elements keep their value.  Returns the new image.
+func (fr *FnRun) havocView(st *State, s *SliceV) *Term {
+	ex := fr.ex
+	oldImg := fr.viewImage(st, s)
+	oldData := fr.sliceData(st, s)
+	av := fr.arrOf(st, s)
+	newData := ex.freshArrData(av.Elem, ex.fresh(s.Arr.Name))
+	fr.setArr(st, s, &ArrayV{Elem: av.Elem, N: av.N, Data: newData})
+	w := int64(s.ViewW)
+	nb := Var(ex.fresh("img_"+s.Arr.Name), SArrII)
+	key := fmt.Sprintf("%d|%s", s.Arr.ID, hashScript(arrDataKey(newData)))
+	st.viewImg[key] = nb
+	e := Var(ex.fresh("e!v"), SInt)
+	var sel []*Term
+	for j := int64(0); j < w; j++ {
+		sel = append(sel, Select(nb, Add(Mul(e, Int(w)), Int(j))))
+	}
+	inWin := And(Le(s.Off, Mul(e, Int(w))), Le(Add(Mul(e, Int(w)), Int(w)), Add(s.Off, s.Len)))
+	newEl := ex.readElem(st, newData, s.ViewElem, e)
+	fromB := fr.elemFromBytes(st, s.ViewElem, sel)
+	oldEl := ex.readElem(st, oldData, s.ViewElem, e)
+	pat := Select(nb, Mul(e, Int(w)))
+	st.assume(Forall([]*Term{e}, Implies(inWin, fr.valEq(st, newEl, fromB)), pat))
+	st.assume(Forall([]*Term{e}, Implies(Not(inWin), fr.valEq(st, newEl, oldEl))))
+	// the image is consistent with the new typed content everywhere, and bytes outside the window are unchanged
+	bs := fr.elemBytes(st, newEl, s.ViewElem)
+	var cs []*Term
+	for j := int64(0); j < w; j++ {
+		cs = append(cs, Eq(sel[j], bs[j]))
+	}
+	st.assume(Forall([]*Term{e}, Implies(Not(inWin), And(cs...)), pat))
+	k := Var(ex.fresh("k!v"), SInt)
+	st.assume(Forall([]*Term{k}, And(Le(Int(0), Select(nb, k)), Lt(Select(nb, k), Int(256))), Select(nb, k)))
+	st.assume(Forall([]*Term{k}, Implies(Or(Lt(k, s.Off), Le(Add(s.Off, s.Len), k)), Eq(Select(nb, k), Select(oldImg, k))), Select(nb, k)))
+	return nb
 }
 
 func (fr *FnRun) copyIntoView(st *State, dst *SliceV, src *SliceV, n *Term) {
-	panic(abortf("copy into byte view unsupported"))
+	if src == nil {
+		panic(abortf("copy of a string into a byte view"))
+	}
+	oldImg := fr.viewImage(st, dst)
+	var srcFact func(nb *Term) *Term
+	k := Var(fr.ex.fresh("k!cv"), SInt)
+	if src.ViewW > 0 {
+		sb := fr.viewImage(st, src)
+		srcFact = func(nb *Term) *Term {
+			return Forall([]*Term{k}, Implies(And(Le(Int(0), k), Lt(k, n)), Eq(Select(nb, Add(dst.Off, k)), Select(sb, Add(src.Off, k)))), Select(nb, Add(dst.Off, k)))
+		}
+	} else {
+		sd, ok := fr.sliceData(st, src).(*Term)
+		if !ok {
+			panic(abortf("copy into byte view from non-byte slice"))
+		}
+		srcFact = func(nb *Term) *Term {
+			return Forall([]*Term{k}, Implies(And(Le(Int(0), k), Lt(k, n)), Eq(Select(nb, Add(dst.Off, k)), Select(sd, Add(src.Off, k)))), Select(nb, Add(dst.Off, k)))
+		}
+	}
+	win := &SliceV{Nil: dst.Nil, Arr: dst.Arr, Off: dst.Off, Len: dst.Len, Cap: dst.Cap, Elem: dst.Elem, ViewW: dst.ViewW, ViewElem: dst.ViewElem}
+	nb := fr.havocView(st, win)
+	st.assume(srcFact(nb))
+	k2 := Var(fr.ex.fresh("k!cv"), SInt)
+	st.assume(Forall([]*Term{k2}, Implies(And(Le(Add(dst.Off, n), k2), Lt(k2, Add(dst.Off, dst.Len))), Eq(Select(nb, k2), Select(oldImg, k2))), Select(nb, k2)))
 }
